@@ -16,6 +16,13 @@ func (self *Interpreter) statement(node ast.AnalyzedStatement) *value.Interrupt 
 	switch node.Kind() {
 	case ast.TypeDefinitionStatementKind:
 		return nil // TODO: it is better to just filter them out during analysis?
+	case ast.TriggerStatementKind:
+		// The executor of the interpreter has no way of registering triggers: report this instead of crashing.
+		return value.NewRuntimeErr(
+			"Trigger statements are not supported by the interpreter",
+			value.HostErrorKind,
+			node.Span(),
+		)
 	case ast.LetStatementKind:
 		node := node.(ast.AnalyzedLetStatement)
 		return self.letStatement(node)
